@@ -535,6 +535,10 @@ func (o *operation) handle() {
 		switch err := o.readRequestMessage(nil, o.request.Body, &reqMsg); {
 		case errors.Is(err, io.EOF):
 			// okay for the first message: means empty message data
+			if reqMsg.buf == nil {
+				// EOF arrived before an envelope was read, so no buffer was set up yet
+				reqMsg.reset(o.bufferPool, true, false)
+			}
 			reqMsg.markReady()
 		case err != nil:
 			o.reportError(err)
